@@ -48,6 +48,9 @@ def call_value(ex, ctx, st, f, args, kwargs, node):
     o = f.py
     if isinstance(o, UF):
         return call_uf(ex, ctx, st, o, args, node)
+    from . import effects as _fx
+    if isinstance(o, _fx.FileMethod):
+        return _fx.file_method(ex, ctx, st, o, args, kwargs, node)
     if isinstance(o, Closure):
         return inline_call(ex, ctx, st, o.fdef, o.frame, o.module, o.qual, args, kwargs, node)
     if isinstance(o, RepoFunc):
@@ -724,6 +727,10 @@ def apply_contract(ex, ctx, st, c, args, kwargs, node):
     if not spec_mode:
         for m in c.modifies:
             attr, _, mode = m.partition("@")
+            if attr == "$fs":
+                from . import effects as _fx2
+                _fx2.havoc_trace(ex, ctx, st)
+                continue
             rcv = None
             if c.kind in ("method", "property") and args and args[0].k == "ref":
                 rcv = args[0].t
@@ -1160,7 +1167,32 @@ def _sf_str_of_float(ex, ctx, st, e):
     return mk_str(bm.ax_flt_str(ctx, to_sort(ex, ctx, st, v, "real")))
 
 
+def _sf_fs_trace(ex, ctx, st, e):
+    from . import effects
+    return effects.trace_ref(ex, ctx, st)
+
+
+def _sf_fs_fun(name, nstr):
+    def f(ex, ctx, st, e):
+        from . import effects
+        from .builtins_model import _need_str
+        args = [ex.eval(ctx, st, a) for a in e.args]
+        ss = [_need_str(ex, ctx, st, a, e).t for a in args[:nstr]]
+        n = ex.need_int(ctx, st, args[nstr], e)
+        r = getattr(effects, name)(*ss, n.t)
+        return mk_str(r) if name == "fs_text" else mk_bool(r)
+    return f
+
+
 SPEC_FORMS = {
+    "fs_trace": _sf_fs_trace,
+    "fs_text": _sf_fs_fun("fs_text", 1),
+    "fs_readable": _sf_fs_fun("fs_readable", 1),
+    "fs_writable": _sf_fs_fun("fs_writable", 1),
+    "fs_islink": _sf_fs_fun("fs_islink", 1),
+    "fs_exists": _sf_fs_fun("fs_exists", 1),
+    "fs_op_ok": _sf_fs_fun("fs_op_ok", 2),
+    "fs_op_started": _sf_fs_fun("fs_op_started", 2),
     "implies": _sf_implies,
     "ite": _sf_ite,
     "forall_int": _sf_forall_int,
